@@ -16,6 +16,7 @@ from pbsym.ctx import B
 
 PROPERTY = 'C04'
 FUNCTIONS = ['playback/tape_recorder.py::TapeRecorder._operation',
+             'playback/tape_recorder.py::TapeRecorder._currently_in_interception',
              'playback/tape_recorder.py::TapeRecorder.start_recording',
              'playback/tape_recorder.py::TapeRecorder._execute_operation_func',
              'playback/tape_recorder.py::TapeRecorder._intercept_input',
@@ -31,8 +32,8 @@ FUNCTIONS = ['playback/tape_recorder.py::TapeRecorder._operation',
 STUBS = ['jsonpickle -> token model that raises on values marked unserializable; time/uuid -> models; cassette = spy '
          'around the real in-memory cassette, optionally failing on save']
 ASSUMPTIONS = ['tolerated fault kinds are those listed in the property; the cassette\'s abort_recording does not raise']
-OUTSIDE = ['nested / concurrent operations on one recorder (the code asserts)', 'worker-thread interleavings (see the '
-           'schedule condition, bounded preemptions)', 'programs longer than the bound']
+OUTSIDE = ['nested / concurrent operations on one recorder (the code asserts)', 'thread schedules with more than P '
+           'preemptions (P = 1 quick, 2 thorough) or finer than statement / attribute-load granularity', 'programs longer than the bound']
 
 FAULT_KINDS = ['key_arg', 'key_resolver', 'in_handler', 'out_handler', 'unser_value', 'discard_op', 'discard_body',
                'force_op', 'force_body']
@@ -187,6 +188,18 @@ CONDITIONS = [
      'what': 'decorated run vs undecorated twin under single faults and pairs at every step; sharded by (fault kinds, first opcode)',
      'tiers': {'quick': {'bounds': _QB, 'timeout': 500, 'shards': _QS, 'witness_shard': _W},
                'thorough': {'bounds': _TB, 'timeout': 6000, 'shards': _TS, 'witness_shard': _W}}},
+    {'fn': 'threads', 'module': 'harness.C04_threads', 'nontrivial': 'preempted',
+     'what': 'two worker threads calling interceptions inside one operation (cooperative rewrite of the real '
+             'tape_recorder.py): every schedule with <= P preemptions, discard issued by a worker / an intercepted body / '
+             'the operation; sharded by who discards',
+     'tiers': {'quick': {'bounds': {'STEPS': 90, 'FORCED': 4}, 'timeout': 600,
+                         'shards': [{'discard_by': d, 'preemptions': 1, 'bucket': b} for d in (None, 'worker', 'body', 'operation')
+                                    for b in ([0, 30], [30, 60], [60, 90])],
+                         'witness_shard': {'discard_by': 'worker', 'preemptions': 1, 'bucket': [0, 90]}},
+               'thorough': {'bounds': {'STEPS': 90, 'FORCED': 5}, 'timeout': 8000,
+                            'shards': [{'discard_by': d, 'preemptions': 2, 'bucket': [b, b + 5]} for d in (None, 'worker', 'body', 'operation')
+                                       for b in range(0, 90, 5)],
+                            'witness_shard': {'discard_by': 'worker', 'preemptions': 1, 'bucket': [0, 90]}}}},
     {'fn': 'operation_flavours', 'nontrivial': 'extractor-misbehaves',
      'what': 'metadata extractor succeeding / raising / returning junk on instance and class-level operations',
      'tiers': {'quick': {'bounds': _QB, 'timeout': 300, 'shards': [{'f1': None, 'f2': None, 'first': f} for f in [None, _o('A', 1), _o('O', 1)]],
